@@ -157,10 +157,10 @@ func (c *Check) moduleServicePath(rule string) {
 					okList = true
 				}
 			}
-			c.req(okList, rule, unitConstruct(f, "issue-list"), issue.Pos,
+			c.msReq(okList, rule, unitConstruct(f, "issue-list"), issue.Pos,
 				"requests are issued to the filter's result list (the credited amount is the filter total): issued to "+issued)
 			_, queued := c.pathHasEffect(f, pa, func(e *Eff) bool { return e.Kind == "store" && e.Op == "Set" && e.Family == "0x09" })
-			c.req(queued, strings.Replace(rule, "C01.2", "C01.2", 1), unitConstruct(f, "issue-expiry"), issue.Pos, "issuing queues the batch expiry on the same path")
+			c.msReq(queued, strings.Replace(rule, "C01.2", "C01.2", 1), unitConstruct(f, "issue-expiry"), issue.Pos, "issuing queues the batch expiry on the same path")
 			c.moduleServiceProviders(rule, f, issue)
 			return
 		}
@@ -178,7 +178,7 @@ func (c *Check) moduleServiceProviders(rule string, ms *Func, issue *Event) {
 			msParam = l.A[1].A[0].String()
 		}
 	}
-	c.req(msParam != "" && strings.HasPrefix(msParam, "P"), rule, unitConstruct(ms, "issue-provider"), issue.Pos,
+	c.msReq(msParam != "" && strings.HasPrefix(msParam, "P"), rule, unitConstruct(ms, "issue-provider"), issue.Pos,
 		"the module-service function issues exactly one request, to the Provider of the module service it is given")
 	if msParam == "" || !strings.HasPrefix(msParam, "P") {
 		return
@@ -187,7 +187,7 @@ func (c *Check) moduleServiceProviders(rule string, ms *Func, issue *Event) {
 	fmt.Sscanf(msParam, "P%d", &pi)
 	// the context constructor and the position of its provider-list parameter
 	var ctor *Func
-	provIdx := -1
+	provIdx, superIdx := -1, -1
 	for f, pps := range c.persistUnits("0x08", "RequestContext") {
 		for _, pp := range pps {
 			for _, sv := range pp.Stored {
@@ -198,6 +198,9 @@ func (c *Check) moduleServiceProviders(rule string, ms *Func, issue *Event) {
 					if kv.Op == "Providers" && len(kv.A) == 1 && kv.A[0].Op == "" && strings.HasPrefix(kv.A[0].At, "P") {
 						ctor = f
 						fmt.Sscanf(kv.A[0].At, "P%d", &provIdx)
+					}
+					if kv.Op == "SuperMode" && len(kv.A) == 1 && kv.A[0].Op == "" && strings.HasPrefix(kv.A[0].At, "P") {
+						fmt.Sscanf(kv.A[0].At, "P%d", &superIdx)
 					}
 				}
 			}
@@ -234,12 +237,38 @@ func (c *Check) moduleServiceProviders(rule string, ms *Func, issue *Event) {
 				got = shortTerm(l)
 				ok = l.Op == "lit" && len(l.A) == 2 && strings.HasSuffix(l.A[1].Op, ".ModuleService.Provider") && len(l.A[1].A) == 1 && l.A[1].A[0].Eq(M)
 			}
-			c.req(ok, rule, unitConstruct(h, "module-context-providers"), call.Pos,
+			c.msReq(ok, rule, unitConstruct(h, "module-context-providers"), call.Pos,
 				"the context handed to the module-service function is created with exactly [moduleService.Provider] (the charge is computed over this list, the request is issued to that provider): "+got)
+			// the module-service function charges the filter total unconditionally, while the request builder records no
+			// fee for a super-mode context: the two agree only if every caller creates the context with SuperMode = false
+			if superIdx >= 0 {
+				okS, gotS := false, "no context is created on the path"
+				if create != nil && superIdx < len(create.CI.args) {
+					gotS = shortTerm(create.CI.args[superIdx])
+					okS = create.CI.args[superIdx].IsAt("#false")
+				}
+				c.req(okS, rule, unitConstruct(h, "module-context-not-super"), call.Pos,
+					"the context handed to the module-service function (which charges without testing the mode) is created with SuperMode = false: "+gotS)
+			}
 			break
 		}
 	}
-	c.req(n >= 1, rule, "module-service-callers", token.NoPos, fmt.Sprintf("%d callers of the module-service function", n))
+	c.msReq(n >= 1, rule, "module-service-callers", token.NoPos, fmt.Sprintf("%d callers of the module-service function", n))
+}
+
+// msReq: the module-service rules other than the mode rule are switched off when a property asks for the mode rule alone.
+func (c *Check) msReq(cond bool, rule, construct string, pos token.Pos, detail string) bool {
+	if c.msOnlySuper {
+		return cond
+	}
+	return c.req(cond, rule, construct, pos, detail)
+}
+
+// moduleServiceNotSuper: only the mode part of the module-service path (the known D11 findings belong to other properties).
+func (c *Check) moduleServiceNotSuper(rule string) {
+	c.msOnlySuper = true
+	defer func() { c.msOnlySuper = false }()
+	c.moduleServicePath(rule)
 }
 
 type crValue struct {
